@@ -8,6 +8,222 @@ verus! {
 //%enum crates/proto/src/rr/domain/name.rs :: LabelParseState
 //%end
 
+// ---- what a name on the wire DENOTES (RFC 1035 3.1 and 4.1.4), written from the RFC, not from the code ----
+// The label sequence denoted by the octets at idx: a length octet 1..63 and that many octets is a label, 0 ends
+// the name, 11xxxxxx + one octet is a pointer to where the rest of the name is. `start` is where the (part of
+// the) name being read began: a pointer must point strictly before it ("a prior occurrence"); `lim` is where the
+// name that pointed here began: labels reached through a pointer must end before it (the |packet| before any
+// pointer). Anything else -- 10/01 length codes, a truncated label, a forward pointer -- denotes no name.
+#[verifier::opaque]
+pub open spec fn dec(buf: Seq<u8>, idx: int, start: int, lim: int) -> Option<Seq<Seq<u8>>>
+    decreases start, buf.len() - idx
+{
+    if !(0 <= idx < buf.len()) || idx >= lim || start < 0 { None }
+    else {
+        let b = buf[idx] as int;
+        if b == 0 { Some(Seq::empty()) }
+        else if b >= 0xC0 {
+            if idx + 2 > buf.len() { None } else {
+                let p = (b - 0xC0) * 256 + buf[idx + 1] as int;
+                if p < start { dec(buf, p, p, start) } else { None }
+            }
+        } else if b < 0x40 {
+            if idx + 1 + b > buf.len() { None } else {
+                match dec(buf, idx + 1 + b, start, lim) {
+                    Some(rest) => Some(seq![buf.subrange(idx + 1, idx + 1 + b)] + rest),
+                    None => None,
+                }
+            }
+        } else { None }
+    }
+}
+// where the field ends in the message: after the zero octet or after the first pointer
+#[verifier::opaque]
+pub open spec fn dec_end(buf: Seq<u8>, idx: int) -> int
+    decreases buf.len() - idx
+{
+    if !(0 <= idx < buf.len()) { idx }
+    else {
+        let b = buf[idx] as int;
+        if b == 0 { idx + 1 } else if b >= 0xC0 { idx + 2 }
+        else if b < 0x40 { if idx + 1 + b > buf.len() { idx } else { dec_end(buf, idx + 1 + b) } }
+        else { idx }
+    }
+}
+// one unfolding of the two definitions (they are opaque so that the solver never unfolds them on its own)
+pub proof fn lemma_dec_unfold(buf: Seq<u8>, idx: int, start: int, lim: int)
+    ensures dec(buf, idx, start, lim) == (
+        if !(0 <= idx < buf.len()) || idx >= lim || start < 0 { None }
+        else {
+            let b = buf[idx] as int;
+            if b == 0 { Some(Seq::empty()) }
+            else if b >= 0xC0 {
+                if idx + 2 > buf.len() { None } else {
+                    let p = (b - 0xC0) * 256 + buf[idx + 1] as int;
+                    if p < start { dec(buf, p, p, start) } else { None }
+                }
+            } else if b < 0x40 {
+                if idx + 1 + b > buf.len() { None } else {
+                    match dec(buf, idx + 1 + b, start, lim) {
+                        Some(rest) => Some(seq![buf.subrange(idx + 1, idx + 1 + b)] + rest),
+                        None => None,
+                    }
+                }
+            } else { None }
+        }),
+        dec_end(buf, idx) == (
+        if !(0 <= idx < buf.len()) { idx }
+        else {
+            let b = buf[idx] as int;
+            if b == 0 { idx + 1 } else if b >= 0xC0 { idx + 2 }
+            else if b < 0x40 { if idx + 1 + b > buf.len() { idx } else { dec_end(buf, idx + 1 + b) } }
+            else { idx }
+        }),
+{
+    reveal_with_fuel(dec, 1);
+    reveal_with_fuel(dec_end, 1);
+}
+pub open spec fn dec_from(acc: Seq<Seq<u8>>, d: Option<Seq<Seq<u8>>>) -> Option<Seq<Seq<u8>>> {
+    match d { Some(rest) => Some(acc + rest), None => None }
+}
+// octets a label sequence takes on the wire, without the root octet
+pub open spec fn wl(ls: Seq<Seq<u8>>) -> int
+    decreases ls.len()
+{ if ls.len() == 0 { 0 } else { wl(ls.drop_last()) + 1 + ls.last().len() } }
+pub proof fn lemma_wl_concat(a: Seq<Seq<u8>>, b: Seq<Seq<u8>>)
+    ensures wl(a + b) == wl(a) + wl(b), wl(b) >= 0
+    decreases b.len()
+{
+    if b.len() == 0 { assert(a + b =~= a); }
+    else {
+        assert((a + b).drop_last() =~= a + b.drop_last());
+        assert((a + b).last() == b.last());
+        lemma_wl_concat(a, b.drop_last());
+    }
+}
+pub proof fn lemma_wl_push(a: Seq<Seq<u8>>, l: Seq<u8>)
+    ensures wl(a.push(l)) == wl(a) + 1 + l.len()
+{ assert(a.push(l).drop_last() =~= a); }
+pub open spec fn appended(n: &Name, n0: int) -> Seq<Seq<u8>> { n.labels().subrange(n0, n.labels().len() as int) }
+// one label consumed: what the whole name denotes, seen from before and from after the label
+pub proof fn lemma_dec_step(top: Option<Seq<Seq<u8>>>, acc: Seq<Seq<u8>>, lbl: Seq<u8>, d_after: Option<Seq<Seq<u8>>>)
+    requires top == dec_from(acc, match d_after { Some(rest) => Some(seq![lbl] + rest), None => None })
+    ensures top == dec_from(acc.push(lbl), d_after)
+{
+    if let Some(rest) = d_after { assert(acc + (seq![lbl] + rest) =~= acc.push(lbl) + rest); }
+}
+pub proof fn lemma_appended_push(old_n: Name, new_n: Name, n0: int, lbl: Seq<u8>)
+    requires 0 <= n0 <= old_n.labels().len(), new_n.labels() == old_n.labels().push(lbl)
+    ensures appended(&new_n, n0) == appended(&old_n, n0).push(lbl),
+        new_n.labels().subrange(0, n0) == old_n.labels().subrange(0, n0),
+{
+    assert(appended(&new_n, n0) =~= appended(&old_n, n0).push(lbl));
+    assert(new_n.labels().subrange(0, n0) =~= old_n.labels().subrange(0, n0));
+}
+pub proof fn lemma_ptr_bits(u: u16, hi: u8, lo: u8)
+    requires u as int == be16(hi, lo), hi >= 0xC0
+    ensures (u & 0x3FFF) as int == (hi as int - 0xC0) * 256 + lo as int
+{
+    assert(u >= 0xC000);
+    assert(u & 0x3FFF == u - 0xC000) by (bit_vector) requires u >= 0xC000;
+}
+pub proof fn lemma_len_bits(b: u8)
+    ensures (b & 0b1100_0000 == 0b1100_0000) == (b >= 0xC0), (b & 0b1100_0000 == 0b0000_0000) == (b < 0x40)
+{
+    assert((b & 0b1100_0000 == 0b1100_0000) == (b >= 0xC0)) by (bit_vector);
+    assert((b & 0b1100_0000 == 0b0000_0000) == (b < 0x40)) by (bit_vector);
+}
+
+// ---- C02/C04, decoder half of the wire round trip: the uncompressed wire form of n denotes n's labels ----
+pub proof fn lemma_labels_cons(n: &Name, k: int)
+    requires 0 <= k <= n.nlabels()
+    ensures n.labels().len() == n.nlabels(),
+        k == n.nlabels() ==> n.labels().subrange(k, n.nlabels()) == Seq::<Seq<u8>>::empty(),
+        k < n.nlabels() ==> seq![n.label(k)] + n.labels().subrange(k + 1, n.nlabels()) == n.labels().subrange(k, n.nlabels()),
+{
+    reveal(Name::labels);
+    if k == n.nlabels() { assert(n.labels().subrange(k, n.nlabels()) =~= Seq::<Seq<u8>>::empty()); }
+    else { assert(seq![n.label(k)] + n.labels().subrange(k + 1, n.nlabels()) =~= n.labels().subrange(k, n.nlabels())); }
+}
+// the facts wire_at gives about label k, in arithmetic form
+pub proof fn lemma_wire_label_facts(n: &Name, buf: Seq<u8>, off: int, k: int)
+    requires n.wf(), n.labels_bounded(), n.wire_at(buf, off), 0 <= k < n.nlabels()
+    ensures ({
+        let p = off + k + n.lstart(k);
+        let l = n.lend(k) - n.lstart(k);
+        &&& 0 <= p && 1 <= l <= 63 && p + 1 + l < buf.len()
+        &&& buf[p] as int == l && buf.subrange(p + 1, p + 1 + l) == n.label(k)
+        &&& p + 1 + l == off + (k + 1) + n.lstart(k + 1)
+    })
+{
+    reveal(Name::wire_label_ok);
+    assert(n.wire_label_ok(buf, off, k));
+    assert(1 <= n.label_ends@[k] as int - n.lstart(k) <= 63);
+    assert(n.lstart(k) <= n.label_ends@[k] as int <= n.label_data@.len());
+    assert(n.lstart(k + 1) == n.lend(k));
+    if k + 1 < n.nlabels() { lemma_lstart_le(n, k + 1); } else { assert(n.lend(k) == n.label_data@.len()); }
+}
+pub proof fn lemma_wire_dec(n: &Name, buf: Seq<u8>, off: int, k: int, start: int)
+    requires n.wf(), n.labels_bounded(), n.wire_at(buf, off), 0 <= k <= n.nlabels(), 0 <= start
+    ensures dec(buf, off + k + n.lstart(k), start, buf.len() as int) == Some(n.labels().subrange(k, n.nlabels())),
+        dec_end(buf, off + k + n.lstart(k)) == off + n.enc_len(),
+    decreases n.nlabels() - k
+{
+    let nl = n.nlabels();
+    let p = off + k + n.lstart(k);
+    lemma_dec_unfold(buf, p, start, buf.len() as int);
+    lemma_labels_cons(n, k);
+    if k == nl {
+        if nl > 0 { assert(n.lstart(nl) == n.label_data@.len()); }
+        assert(p == off + nl + n.label_data@.len());
+        assert(buf[p] == 0);
+    } else {
+        lemma_wire_label_facts(n, buf, off, k);
+        lemma_wire_dec(n, buf, off, k + 1, start);
+        let l = n.lend(k) - n.lstart(k);
+        let rest = n.labels().subrange(k + 1, nl);
+        assert(dec(buf, p + 1 + l, start, buf.len() as int) == Some(rest));
+        assert(dec(buf, p, start, buf.len() as int) == Some(seq![n.label(k)] + rest));
+        assert(dec_end(buf, p) == dec_end(buf, p + 1 + l));
+    }
+}
+pub proof fn lemma_lstart_le(n: &Name, k: int)
+    requires n.wf(), 0 <= k < n.nlabels()
+    ensures k + n.lstart(k) < n.nlabels() + n.label_data@.len()
+    decreases n.nlabels() - k
+{
+    assert(n.lstart(k) <= n.label_ends@[k] as int <= n.label_data@.len());
+    if k + 1 < n.nlabels() { lemma_lstart_le(n, k + 1); assert(n.lstart(k + 1) == n.label_ends@[k] as int); }
+}
+pub proof fn lemma_wl_labels(n: &Name, k: int)
+    requires n.wf(), 0 <= k <= n.nlabels()
+    ensures wl(n.labels().subrange(0, k)) == k + n.lstart(k)
+    decreases k
+{
+    reveal(Name::labels);
+    if k > 0 {
+        lemma_wl_labels(n, k - 1);
+        assert(n.labels().subrange(0, k).drop_last() =~= n.labels().subrange(0, k - 1));
+        assert(n.lstart(k - 1) <= n.label_ends@[k - 1] as int <= n.label_data@.len());
+    }
+}
+// THE ROUND TRIP (uncompressed): wherever the wire form of a name of 1..63-octet labels lies in a packet, it
+// denotes exactly that name's labels (octets unchanged, so letter case is kept), it fits the 255-octet limit, and
+// the field ends right after its root octet. With read_inner's contract below: Name::read returns Ok with
+// these labels and leaves the decoder at off + enc_len.
+pub proof fn lemma_wire_roundtrip(n: &Name, buf: Seq<u8>, off: int)
+    requires n.wf(), n.labels_bounded(), n.wire_at(buf, off)
+    ensures dec(buf, off, off, buf.len() as int) == Some(n.labels()),
+        dec_end(buf, off) == off + n.enc_len(),
+        1 + wl(n.labels()) == n.enc_len() <= 255,
+{
+    reveal(Name::labels);
+    lemma_wire_dec(n, buf, off, 0, off);
+    assert(n.labels().subrange(0, n.nlabels()) =~= n.labels());
+    lemma_wl_labels(n, n.nlabels());
+    if n.nlabels() > 0 { assert(n.lstart(n.nlabels()) == n.label_data@.len()); }
+}
+
 //%fn crates/proto/src/rr/domain/name.rs :: impl<'r> BinDecodable<'r> for Name :: read
 //%rename name_read<'r>
 //%sub1 "Self::default()" => "Name::vp_default()" # R-shim: derived Default -> verified model vp_default
@@ -15,17 +231,49 @@ verus! {
 //%contract
     requires old(decoder).wf()
     ensures final(decoder).wf(), final(decoder).buf() == old(decoder).buf(), final(decoder).idx() >= old(decoder).idx(),
-        match r { Ok(n) => n.wf() && n.labels_bounded() && n.is_fqdn && final(decoder).idx() > old(decoder).idx(), Err(_) => true }
+        match r { Ok(n) => n.wf() && n.labels_bounded() && n.is_fqdn && final(decoder).idx() > old(decoder).idx(), Err(_) => true },
+        // C02/C04: Name::read returns exactly the labels the octets denote (RFC 1035 3.1/4.1.4) and stops where the field ends;
+        // it fails only where the octets denote no name, or a name longer than 255 octets
+        match r {
+            Ok(n) => dec(old(decoder).buf(), old(decoder).idx(), old(decoder).idx(), old(decoder).buf().len() as int) == Some(n.labels())
+                  && final(decoder).idx() == dec_end(old(decoder).buf(), old(decoder).idx()),
+            Err(_) => match dec(old(decoder).buf(), old(decoder).idx(), old(decoder).idx(), old(decoder).buf().len() as int) {
+                  Some(ls) => 1 + wl(ls) > 255, None => true },
+        }
+//%before "Ok(name)"
+    proof {
+        reveal(Name::labels);
+        assert(appended(&name, 0) =~= name.labels());
+    }
 //%end
 
 //%fn crates/proto/src/rr/domain/name.rs :: fn read_inner
 //%attr #[verifier::loop_isolation(false)]
+//%attr #[verifier::rlimit(60)]
+//%attr #[verifier::spinoff_prover]
 //%contract
     requires old(decoder).wf(), old(name).wf(), old(name).labels_bounded()
     ensures final(name).wf(), final(name).labels_bounded(),
         final(decoder).wf(), final(decoder).buf() == old(decoder).buf(), final(decoder).idx() >= old(decoder).idx(),
         r is Ok ==> final(name).is_fqdn && final(decoder).idx() > old(decoder).idx(),
+        final(name).nlabels() >= old(name).nlabels(),
+        final(name).labels().subrange(0, old(name).nlabels()) == old(name).labels(),
+        match r {
+            Ok(_) => dec(old(decoder).buf(), old(decoder).idx(), old(decoder).idx(), old(decoder).buf().len() as int) == Some(appended(final(name), old(name).nlabels()))
+                  && final(decoder).idx() == dec_end(old(decoder).buf(), old(decoder).idx()),
+            Err(_) => match dec(old(decoder).buf(), old(decoder).idx(), old(decoder).idx(), old(decoder).buf().len() as int) {
+                  Some(ls) => old(name).enc_len() + wl(ls) > 255, None => true },
+        }
 //%before "loop"
+    let ghost n0 = old(name).nlabels();
+    let ghost enc_0 = old(name).enc_len();
+    let ghost top = dec(decoder.buf(), decoder.idx(), decoder.idx(), decoder.buf().len() as int);
+    proof {
+        reveal(Name::labels);
+        assert(name.labels().subrange(0, n0) =~= old(name).labels());
+        assert(appended(name, n0) =~= Seq::<Seq<u8>>::empty());
+        assert(Seq::<Seq<u8>>::empty() + dec(decoder.buf(), decoder.idx(), decoder.idx(), decoder.buf().len() as int).unwrap_or(Seq::empty()) =~= dec(decoder.buf(), decoder.idx(), decoder.idx(), decoder.buf().len() as int).unwrap_or(Seq::empty()));
+    }
     let ghost outer_buf = decoder.buf();
     let ghost outer_idx0 = decoder.idx();
     let ghost outer_fin = *final(decoder);
@@ -51,32 +299,74 @@ verus! {
                   + (if state is LabelLengthOrPointer { 1int } else { 0int }) <= 2 * decoder.buf().len() + 1,
             steps <= 2 * decoder.buf().len() + 130,
             state is Label ==> decoder.idx() < decoder.buf().len() && decoder.buf()[decoder.idx()] != 0,
+            // functional part: what is in `name` so far, followed by what the octets at the read position denote, is what the field denotes
+            state is Label ==> decoder.buf()[decoder.idx()] < 0x40,
+            state is Pointer ==> decoder.buf()[decoder.idx()] >= 0xC0,
+            state is Root ==> decoder.buf()[decoder.idx()] == 0,
+            name.labels().len() == name.nlabels() >= n0, name.labels().subrange(0, n0) == old(name).labels(),
+            top == dec_from(appended(name, n0), dec(outer_buf, decoder.idx(), name_start as int,
+                        match ptr_max_idx { Some(m) => m as int, None => outer_buf.len() as int })),
+            name.enc_len() == enc_0 + wl(appended(name, n0)),
+            !chased ==> dec_end(outer_buf, outer_idx0) == dec_end(outer_buf, decoder.idx()),
+            chased ==> outer_fin.idx() == dec_end(outer_buf, outer_idx0),
         decreases name_start, decoder.buf().len() - decoder.idx(), (if state is LabelLengthOrPointer { 1int } else { 0int }),
 //%before "if let Some(max_idx) = ptr_max_idx"
-        proof { steps = steps + 1; }
+        proof {
+            steps = steps + 1;
+            lemma_dec_unfold(outer_buf, decoder.idx(), name_start as int, match ptr_max_idx { Some(m) => m as int, None => outer_buf.len() as int });
+        }
+//%before "match decoder . peek ( )"
+                proof { if decoder.idx() < decoder.buf().len() { lemma_len_bits(decoder.buf()[decoder.idx()]); } }
 //%closure "|l|"@1
-|l: &&[u8]| -> (b: bool) ensures b ==> l@.len() <= 63
+|l: &&[u8]| -> (b: bool) ensures b == (l@.len() <= 63)
 //%closure "|l|"@2
 |l: &[u8]| -> (e: DecodeError)
 //%closure "|_|"
 |_vp0: DecodeError| -> (e: DecodeError)
 //%before "name.extend_name(label)"
                 let ghost name_before = *name;
+//%before "let label = decoder"
+                let ghost idx_l = decoder.idx();
+                let ghost lim_g = match ptr_max_idx { Some(m) => m as int, None => outer_buf.len() as int };
+//%before "name.extend_name(label)"
+                let ghost idx_a = idx_l + 1 + label@.len();
+                proof {
+                    // the name cannot take this label: whatever follows, the field denotes more than 255 octets
+                    if name_before.enc_len() + label@.len() + 1 > 255 {
+                        if let Some(rest) = dec(outer_buf, idx_a, name_start as int, lim_g) {
+                            lemma_wl_concat(appended(&name_before, n0), seq![label@] + rest);
+                            lemma_wl_concat(seq![label@], rest);
+                            lemma_wl_push(Seq::<Seq<u8>>::empty(), label@);
+                            assert(Seq::<Seq<u8>>::empty().push(label@) =~= seq![label@]);
+                        }
+                    }
+                }
 //%before "LabelParseState::LabelLengthOrPointer }"@1
                 proof {
                     lemma_extend_labels(name_before, *name, label@);
+                    lemma_appended_push(name_before, *name, n0, label@);
+                    lemma_wl_push(appended(&name_before, n0), label@);
+                    lemma_dec_step(top, appended(&name_before, n0), label@, dec(outer_buf, idx_a, name_start as int, lim_g));
+                }
+//%before "let location = decoder"
+                let ghost ptr_hi = decoder.buf()[decoder.idx()];
+                let ghost ptr_lo = if decoder.idx() + 1 < decoder.buf().len() { decoder.buf()[decoder.idx() + 1] } else { 0u8 };
+                proof {
+                    if decoder.idx() + 2 <= decoder.buf().len() { lemma_ptr_bits((be16(ptr_hi, ptr_lo)) as u16, ptr_hi, ptr_lo); }
                 }
 //%before "ptr_max_idx = Some(name_start);"
                 proof { chased = true; }
 //%closure "|u|"
 |u: u16| -> (o: u16) ensures o == u & 0x3FFF
 //%closure "|ptr|"
-|ptr: &u16| -> (b: bool) ensures b ==> (*ptr as usize) < name_start
+|ptr: &u16| -> (b: bool) ensures b == ((*ptr as usize) < name_start)
 //%closure "|e|"
 |e: u16| -> (e2: DecodeError)
 //%mutant ptr_le "(*ptr as usize) < name_start" => "(*ptr as usize) <= name_start"
 //%mutant label_64 "l.len() <= 63" => "l.len() <= 64"
 //%mutant no_overlap_guard "decoder.index() >= max_idx" => "false && decoder.index() >= max_idx"
+//%mutant ptr_hop_off_by_one "decoder.clone(location)" => "decoder.clone(if location > 0 { location - 1 } else { location })"
+//%mutant label_not_stored "name.extend_name(label)" => "(if label.len() == 7 { Ok(()) } else { name.extend_name(label) })"
 //%mutant no_root_pop "decoder.pop()?;" => ""
 //%end
 } // verus!
